@@ -197,7 +197,7 @@ func ruleC12_3(c *Ctx, r *Rep) {
 		}
 		if s.Kind == "delete" {
 			n++
-			r.Check("C12.3", "C12.3:"+keys[s], s.Pos, in(c.Owner(s), fnPruneDS, fnPruneDT), "hard delete only by the prune jobs", s.Table+" rows are hard-deleted by "+c.Owner(s)+" (only the prune jobs may, after the soft delete aged)")
+			r.Check("C12.3", "C12.3:"+keys[s], s.Pos, c.ownedBy(s, fnPruneDS, fnPruneDT), "hard delete only by the prune jobs", s.Table+" rows are hard-deleted by "+c.Owner(s)+" (only the prune jobs may, after the soft delete aged)")
 		}
 		if s.Kind != "update" {
 			continue
@@ -223,7 +223,7 @@ func ruleC12_3(c *Ctx, r *Rep) {
 		if ok && (len(d) == 0) != (len(l) == 0) {
 			ok, msg = false, "soft delete must set deleted_at and clear live together (the unique (name, live) index keeps the name reserved otherwise, or a live row carries deleted_at)"
 		}
-		if ok && !in(c.Owner(s), fnDelSub, fnDelTopic, fnExpireSubs) {
+		if ok && !c.ownedBy(s, fnDelSub, fnDelTopic, fnExpireSubs) {
 			ok, msg = false, "soft delete by "+c.Owner(s)
 		}
 		r.Check("C12.3", "C12.3:"+keys[s], s.Pos, ok, "soft delete = {deleted_at:set, live:clear}", msg)
